@@ -7,7 +7,7 @@ from ..common import UnitResult, case_rng
 
 ID = "C25"
 LEVEL = "exploration"
-RULE = ("scenarios {Disposable, BooleanDisposable, ScheduledDisposable on an EventLoopScheduler, re-entrant dispose from the action} x "
+RULE = ("scenarios {Disposable, BooleanDisposable, ScheduledDisposable on an EventLoopScheduler / an ImmediateScheduler (the dispose actions of concurrent callers overlap) / a NewThreadScheduler (one thread per action), re-entrant dispose from the action} x "
         "{2,3} threads x {1,2} dispose() calls per thread, run under the deterministic thread scheduler: exhaustive enumeration of all "
         "schedules with <= b preemptions (yield point = every source line of reactivex/disposable/{disposable,booleandisposable,scheduleddisposable,singleassignmentdisposable}.py and every "
         "lock operation) plus seeded random / PCT schedules; single-thread call histories; distinct = distinct decision list per scenario; "
@@ -17,6 +17,8 @@ ASSUMPTIONS = ["free-running units: real threads, switch interval 1 us, yields i
                "threading.Lock/RLock/Condition/Event/Thread are replaced by instrumented equivalents while reactivex is imported"]
 REQUIRED = {"decided_runs": {"quick": 500, "thorough": 5000}, "preemptive_switches": {"quick": 300, "thorough": 3000},
             "dfs_complete_scenarios": {"quick": 4, "thorough": 6},
+            "scheduled_eventloop": {"quick": 300, "thorough": 3000}, "scheduled_immediate": {"quick": 300, "thorough": 3000},
+            "scheduled_newthread": {"quick": 300, "thorough": 3000},
             "runs:free": {"quick": 2000, "thorough": 40000}, "free_injected_yields": {"quick": 2000, "thorough": 40000}}
 UNIT_TIMEOUT = {"quick": 240, "thorough": 3000}
 FILES = ("disposable/disposable.py", "disposable/booleandisposable.py", "disposable/scheduleddisposable.py",
@@ -28,6 +30,7 @@ def scenario(c: Any, P: dict) -> dict:
     from .. import dsched as D
     from reactivex.disposable import BooleanDisposable, Disposable, ScheduledDisposable
     kind, nthreads, ncalls = P["kind"], P["threads"], P["calls"]
+    sched_kind = P.get("sched", "eventloop")
     viol: list = []
     obs: dict = {}
     runs: list = []          # (thread name) for each action execution
@@ -44,8 +47,16 @@ def scenario(c: Any, P: dict) -> dict:
     elif kind == "boolean":
         d = BooleanDisposable()
     else:
-        from reactivex.scheduler import EventLoopScheduler
-        loop = EventLoopScheduler()
+        from reactivex.scheduler import EventLoopScheduler, ImmediateScheduler, NewThreadScheduler
+        # the scheduler decides where the dispose actions run: one loop thread (they are serialised by the loop), the calling
+        # threads themselves (immediate: the actions of concurrent dispose() calls overlap) or one new thread per action
+        if sched_kind == "eventloop":
+            loop = EventLoopScheduler()
+            target: Any = loop
+        elif sched_kind == "immediate":
+            target = ImmediateScheduler()
+        else:
+            target = NewThreadScheduler()
         from reactivex import abc as rxabc
 
         class Resource(rxabc.DisposableBase):
@@ -58,7 +69,7 @@ def scenario(c: Any, P: dict) -> dict:
             def dispose(self) -> None:
                 runs.append(me())
                 c.yp("in-action")
-        d = ScheduledDisposable(loop, Resource())
+        d = ScheduledDisposable(target, Resource())
 
     def worker() -> None:
         for _ in range(ncalls):
@@ -75,12 +86,15 @@ def scenario(c: Any, P: dict) -> dict:
         c.wait_quiescent()
         if len(runs) != 1:
             viol.append(("C25:scheduled:inner-dispose-count", {"count": len(runs), "by": runs}))
-        elif not runs[0].startswith("T"):
-            viol.append(("C25:scheduled:not-on-scheduler-thread", {"by": runs}))
+        elif sched_kind != "immediate" and not runs[0].startswith("T"):
+            viol.append(("C25:scheduled:not-on-scheduler-thread", {"by": runs, "scheduler": sched_kind}))
+        elif sched_kind == "immediate" and not runs[0].startswith("W"):
+            viol.append(("C25:scheduled:not-on-scheduler-thread", {"by": runs, "scheduler": sched_kind}))
         if not d.is_disposed:
             viol.append(("C25:scheduled:is_disposed-false-at-quiescence", {}))
-        assert loop is not None
-        loop.dispose()
+        if loop is not None:
+            loop.dispose()
+        obs["scheduled_" + sched_kind] = 1
     elif kind == "boolean":
         if d.is_disposed is not True:
             viol.append(("C25:boolean:flag", {"is_disposed": d.is_disposed}))
@@ -155,6 +169,7 @@ def single_thread_histories(res: UnitResult, seed: int, n: int) -> None:
 
 
 SCEN = [{"kind": k, "threads": t, "calls": n} for k in ("disposable", "boolean", "scheduled", "reentrant") for t in (2, 3) for n in (1, 2)]
+SCEN += [{"kind": "scheduled", "sched": sk, "threads": t, "calls": n} for sk in ("immediate", "newthread") for t in (2, 3) for n in (1, 2)]
 
 
 def units(tier: str, seed: int) -> list[dict]:
@@ -176,7 +191,7 @@ def units(tier: str, seed: int) -> list[dict]:
     us.append({"mode": "st", "n": 400 if tier == "quick" else 20000, "seed": seed})
     # free-running tier (real threads, bytecode-granular yield injection): everything that needs no scheduler thread
     for P in SCEN:
-        if P["kind"] != "scheduled":
+        if P["kind"] != "scheduled" or P.get("sched") == "immediate":
             us.append({"P": P, "mode": "free", "runs": 250 if tier == "quick" else 6000, "seed": seed})
     return us
 
@@ -186,7 +201,7 @@ def run_unit(unit: dict, res: UnitResult) -> None:
         single_thread_histories(res, unit["seed"], unit["n"])
         return
     P = unit["P"]
-    name = "%s-%dx%d" % (P["kind"], P["threads"], P["calls"])
+    name = "%s%s-%dx%d" % (P["kind"], ("-" + P["sched"]) if P.get("sched") else "", P["threads"], P["calls"])
     if unit["mode"] == "free":
         from ..freerun import explore_free
         explore_free(res, ID, "free-" + name, scenario, P, seed=unit["seed"], runs=unit["runs"], files=tuple("reactivex/" + f for f in FILES))
